@@ -119,6 +119,8 @@ pub fn projections() -> Vec<Proj> {
         ("2SP north scaled", "lcc lat_1=49 lat_2=77 lat_0=49 lon_0=-95 k_0=0.9 x_0=1 y_0=2", -95., 49., true),
     ] {
         let mut t = p("lcc", aspect, def, lon_c, lat_c);
+        // the cone is cut along the meridian opposite the central one: the map is discontinuous there
+        t.max_dlon = 179.9;
         // the pole of the opposite hemisphere is at infinity
         if north {
             t.lat_min = -80.;
@@ -251,6 +253,7 @@ fn generated() -> Vec<Proj> {
             for (k, kl) in [("", ""), (" k_0=0.99", " scaled")] {
                 for (o, ol) in offs {
                     let mut t = p("lcc", leak(format!("gen {pl}{kl}{ol}")), &format!("lcc {par} lon_0={lon_0}{k}{o}"), lon_0, lat_c);
+                    t.max_dlon = 179.9;
                     if north {
                         t.lat_min = -80.;
                     } else {
